@@ -37,6 +37,13 @@ def judge(r: Result, s: str, where: str):
         out = a.serialize()
         if not isinstance(out, str):
             r.fail('an accepted string yields something that can be serialized', f'C09/{where}/serialize-type', string=s, got=type(out).__name__)
+        # what was accepted is an annotation: every residue modification sits on a residue (serialize() cannot write any other)
+        for ann in ([a] if single else list(getattr(a, 'annotations', []))):
+            im = ann.internal_mods or {}
+            if any((not isinstance(k, int)) or k < 0 or k >= len(ann.sequence) for k in im):
+                r.fail('an accepted string yields something that can be serialized', f'C09/{where}/modification-on-no-residue', string=s,
+                       positions=sorted(im), length=len(ann.sequence), serialized=out)
+                break
     except ValueError:
         pass
     except RecursionError:
@@ -224,6 +231,7 @@ def check_massless(case) -> Result:
 ADDUCT_VALUES = ['1', '1.5', '-2', '', '+', '-', '+2Na+,', '+Na+,,+H+', '+1+', ',', '+2', 'Foo', '+Foo+', '+H', 'H+,', '+Na+,1', '0',
                  '+e', 'Na', '+2', '2+', '++', '+-Na+']
 MALFORMED_RULES = ['<Foo@P>', '<Oxidation@P>', '<@P>', '<15.99@P>', '<Foo@N-Term>', '<Foo@P,E>']
+EMPTY_TARGET_RULES = ['<[Oxidation]@>', '<[Oxidation]@P,>', '<[Oxidation]@,P>', '<[+10]@>']
 
 
 def check_adduct(case) -> Result:
@@ -324,6 +332,43 @@ def check_odd_target(case) -> Result:
 def odd_target_cases():
     for t in ODD_TARGETS:
         yield {'target': t}
+
+
+def check_empty_target(case) -> Result:
+    """a global rule with an empty target names no residue: rejected at parse, or mass / composition raise, or - at most - the rule
+    applies to the named residues only; it must not be applied to positions that do not exist"""
+    import peptacular as pt
+    r = Result()
+    s = case['rule'] + 'PEPTIDE'
+    r.nontrivial = True
+    r.classes = ['empty-rule-target']
+    ctx = dict(string=s)
+    try:
+        pt.parse(s)
+    except ValueError:
+        return r
+    named = [t for t in case['rule'].rsplit('@', 1)[1].rstrip('>').split(',') if t]
+    rule_mod = case['rule'][2:case['rule'].index(']')]
+    allowed = pt.mass(f"<[{rule_mod}]@{','.join(named)}>PEPTIDE") if named else pt.mass('PEPTIDE')
+    for fn_name, fn in (('mass', lambda: pt.mass(s)), ('comp', lambda: pt.chem_mass(pt.comp(s))),
+                        ('condense', lambda: pt.mass(pt.condense_static_mods(s)))):
+        try:
+            got = fn()
+        except ValueError:
+            continue
+        except Exception as e:  # noqa
+            r.fail('asking for the mass or composition raises a ValueError-family error, not an unrelated exception',
+                   f'C09/empty-target/{fn_name}-raises-{type(e).__name__}', error=str(e)[:100], **ctx)
+            continue
+        if abs(got - allowed) > 1e-6:
+            r.fail('a rule is applied to the residues it names and to nothing else', f'C09/empty-target/{fn_name}-applies-the-rule-to-no-residue',
+                   got=got, at_most=allowed, **ctx)
+    return r
+
+
+def empty_target_cases():
+    for v in EMPTY_TARGET_RULES:
+        yield {'rule': v}
 
 
 def malformed_rule_cases():
@@ -460,6 +505,8 @@ def parts(tier):
              space=f'{len(ADDUCT_VALUES)} malformed or unusual charge-adduct values x charge in (1, 2, -1)'),
         Part(name='malformed-global-rules', kind='enum', check_case=check_malformed_rule, cases=malformed_rule_cases, exhaustive=True,
              shards=1, case_limit=30, space=f'{len(MALFORMED_RULES)} global rules without a bracketed modification'),
+        Part(name='empty-rule-targets', kind='enum', check_case=check_empty_target, cases=empty_target_cases, exhaustive=True, shards=1,
+             case_limit=30, space=f'{len(EMPTY_TARGET_RULES)} global rules with an empty target'),
         Part(name='odd-rule-targets', kind='enum', check_case=check_odd_target, cases=odd_target_cases, exhaustive=True, shards=1, case_limit=30,
              space=f'{len(ODD_TARGETS)} global-rule targets that are not residues of the peptide'),
         Part(name='strings', kind='hyp', check_case=check_string, strategy=string_strategy, examples=n, case_limit=30),
